@@ -33,7 +33,7 @@ RULE = (
     "(world digest, scenario digest, choice-tape digest)."
 )
 TIERS = {
-    "quick": {"runs": 160, "budget_s": 45, "min_runs": 4, "run_timeout_s": 240},
+    "quick": {"runs": 160, "budget_s": 60, "min_runs": 4, "run_timeout_s": 240},
     "thorough": {"runs": 12000, "budget_s": 800, "min_runs": 40, "run_timeout_s": 600},
 }
 COMPONENTS_REAL = [
@@ -47,13 +47,14 @@ COMPONENTS_STUBBED = [
     "module time -> virtual clock",
     "multiprocessing.cpu_count -> constant per run",
     "tqdm progress bars disabled; uuid4 and temp names seeded",
+    "(fidelity cross-check only, outside digests and verdicts: 1 run in 16 quick / 6 thorough repeats the subject through the real multiprocessing.Pool)",
 ]
 ASSUMPTIONS = [
     "SimPool delivers every submitted task's result exactly once in some order, like imap_unordered without worker death",
     "no two path arguments overlap and no fixed-suffix output collides with an input (outside 'a set of files')",
 ]
 
-PROCS = [2, 2, 3, 4, 8, 0, -1]
+PROCS = [2, 2, 2, 3, 4, 8, 0, -1]
 # warm zygotes have already performed the lazy imports of a first lint (rule
 # plugins + these dialect modules); cold ones have not. Drawn per run.
 WARM = "rules,ansi,postgres,bigquery,snowflake"
@@ -101,6 +102,8 @@ def gen_scenario(rng: Rng, world: dict) -> dict:
         "fault": "none",
         "subject_seed": rng.randrange(1 << 30),
         "cmd": "fix",
+        # slow-worker fault: this submission number takes ~forever (None = nobody)
+        "straggler": rng.choice([None, None, None, 0, 0, 1, 2, 4]),
     }
     if rng.chance(0.2):
         ov = rng.choice([{"exclude_rules": "LT01"}, {"rules": "LT01,LT12,CP01,LT02"}, {"exclude_rules": "CP01,LT12"}])
@@ -241,9 +244,11 @@ def run_one(ctx: Any, seed: int, tier: str, replay: Optional[dict] = None) -> di
             "newlines": ["lf", "lf", "lf", "crlf"],
             "kinds": KINDS + ["cte_multi", "rulecase", "rulecase"],
             "bait": 0.2,
+            "max_files": rng.fork("nfiles").choice([8, 8, 8, 12]),
+            "jinja_loader": 0.25,
         })
         sc = gen_scenario(rng.fork("scenario"), world)
-        pool = ctx.hashseeds(3)
+        pool = ctx.hashseeds(6)
         hr = rng.fork("hashseed")
         hs_a = hr.choice(pool)
         hs_b = hr.choice([h for h in pool if h != hs_a])
@@ -260,6 +265,7 @@ def run_one(ctx: Any, seed: int, tier: str, replay: Optional[dict] = None) -> di
     sim_time = 0
     evaluations = 0
     samples: list = []
+    harness_notes: list = []
     try:
         def fresh(z, name: str, seed_: int, knobs: dict, tape=None):
             seams.restore_tree(root, initial)
@@ -297,6 +303,7 @@ def run_one(ctx: Any, seed: int, tier: str, replay: Optional[dict] = None) -> di
                 lookahead=sc["lookahead"],
                 dequeue=sc["dequeue"],
                 pool_backend=backend,
+                straggler=sc.get("straggler"),
             )
             if sc["fault"] == "read_err":
                 knobs["worker_plan"] = sc["plan"]
@@ -323,6 +330,8 @@ def run_one(ctx: Any, seed: int, tier: str, replay: Optional[dict] = None) -> di
         probes["deliveries_with_inflight"] += pool.get("deliveries_with_inflight", 0)
         probes["max_inflight_ge2"] += 1 if pool.get("max_inflight", 0) >= 2 else 0
         probes["backend_" + sc["backend"]] += 1
+        if pool.get("straggler_started"):
+            faults["straggler"] += 1
         probes["via_%s_%s" % (sc["via"], sc["action"])] += 1
         persisted = len(sub_out.get("mon", {}).get("persist", []))
         probes["persist_calls"] += persisted
@@ -345,6 +354,20 @@ def run_one(ctx: Any, seed: int, tier: str, replay: Optional[dict] = None) -> di
                 msg = None
             else:
                 msg = msg2
+        # ---- SimPool fidelity cross-check: the same subject through the REAL multiprocessing.Pool ----
+        # (OS-scheduled, hence outside the digest and never a verdict: a disagreement here that SimPool
+        # did not show means the stand-in misses something and is reported as a harness error)
+        fidelity_every = {"quick": 16, "thorough": 6}.get(tier, 16)
+        if not replay and not msg and sc["fault"] == "none" and seed % fidelity_every == 0 and os.environ.get("VSIM_NO_REALPOOL") != "1":
+            try:
+                r_out, _, _, _, r_tree = run_subject("real", None)
+                r_msg = compare(ref_c, canon_outcome(r_out, sc), tree_ref, r_tree, False, None, initial)
+            except Exception as e:  # the real pool is not under our control
+                r_msg = "real-pool run failed: %r" % (e,)
+            probes["real_pool_crosschecks"] += 1
+            if r_msg:
+                probes["real_pool_disagreements"] += 1
+                harness_notes.append("SimPool fidelity: real multiprocessing.Pool run of seed %d disagrees with the serial reference although the SimPool run agreed: %s" % (seed, r_msg[:400]))
         if msg:
             sig = "C24:" + msg.split(":")[0].split(" differ")[0][:40]
             violations.append(
@@ -377,6 +400,7 @@ def run_one(ctx: Any, seed: int, tier: str, replay: Optional[dict] = None) -> di
         "schedules": schedules,
         "sim_time": sim_time,
         "samples": samples,
+        "harness_notes": harness_notes,
     }
 
 
